@@ -1,5 +1,5 @@
 (** Exec/RecvCase.v — correspondence cases for derived receivers (C01-C03, C07, C09, C17). *)
-From DarlingModel Require Import Run.Recv Exec.ErrObs Exec.ConvCase.
+From DarlingModel Require Import Run.Recv Run.InsideProofs Exec.ErrObs Exec.ConvCase.
 Local Open Scope string_scope.
 
 (** The fixed library of user callables (harness/vh-rt/src/corpus.rs has the Rust spellings). *)
@@ -153,7 +153,9 @@ Definition leaf_span_ok (input : nested) (l : string * option string * option sp
 
 Definition holds03 (c : caseRecv) : bool :=
   match rc_entry c, rc_obs c with
-  | EMeta, CErr o => forallb (leaf_span_ok (rc_input c)) (obs_leaves None None o)
+  | EMeta, CErr o =>
+      (* [wfpb]: the input meets the positional well-formedness the theorems of Run/InsideProofs.v assume *)
+      wfpb (rc_input c) && forallb (leaf_span_ok (rc_input c)) (obs_leaves None None o)
   | _, _ => true
   end.
 Definition nontrivial03 (c : caseRecv) : bool :=
